@@ -180,9 +180,9 @@ class Cursor:
     # ------------------------------------------------------------------ consume
     def consume(self, node, st):
         fn = self.fn
-        ordn = self.ordinals.setdefault(fn, {})
-        idx = ordn.setdefault(id(node), len(ordn) + 1)
         label = self.ctx[-1] if self.ctx else "-"
+        ordn = self.ordinals.setdefault((fn, label), {})
+        idx = ordn.setdefault(id(node), len(ordn) + 1)
         key = f"{short(fn)}|{label}|consume#{idx}"
         self.sites[key] = loc(node)
         k0 = st.know.get(0)
